@@ -8,6 +8,8 @@ import FordModel.Settings
 import FordModel.Lemmas.Settings
 import FordModel.SettingsSpec
 import FordModel.Lemmas.SettingsSpec
+import FordModel.SettingsSource
+import FordModel.Lemmas.SettingsSource
 namespace Ford.C15
 open Ford Ford.Settings
 
@@ -341,8 +343,8 @@ theorem path_absolute_ignores_dir (d1 d2 p : Str) (h : startsWith p ['/'] = true
 
 /-- ... and a relative one is interpreted relative to the project file's directory: its
     normalisation is the normalisation of its own segments continued from the normalised
-    directory.  (The working directory is not an argument of the model at all; that the code
-    has no such dependence is checked by the harness, which re-runs from other directories.) -/
+    directory.  (How the project directory itself follows from the working directory and the
+    path typed on the command line is modelled in `SettingsSource.lean`, theorems of round 6 below.) -/
 theorem path_relative_to_project_dir (dir p : Str) (h : startsWith p ['/'] = false) :
     normPath dir p =
       '/' :: joinSep '/' (normSegs (splitChar '/' p) (normSegs (splitChar '/' dir) []).reverse) := by
@@ -453,5 +455,168 @@ example : pathParts "./favicon.png".toList = pathParts "favicon.png".toList
 /-- non-vacuity over the regenerated tables: `favicon` and `md_base_dir` are path options -/
 example : tagOf Generated.settingsSchema "favicon".toList = some .path
     ∧ tagOf Generated.settingsSchema "md_base_dir".toList = some .path := by decide
+
+/-! ### round 6: where the options are taken from (`initialize` / `load_settings` / `load_toml_settings`) -/
+
+/-- Every attempt of the regenerated `load_settings` to find the manifest looks in the directory of
+    the *project file* (and there is at least one): nothing is looked up in the working directory.
+    A second lookup somewhere else (`load_toml_settings(Path.cwd())`) changes the regenerated table
+    and this obligation no longer checks. -/
+theorem toml_lookup_sound :
+    Generated.tomlLookups ≠ [] ∧ ∀ l ∈ Generated.tomlLookups, l = LookupDir.projectDir := by decide
+
+/-- "the `[extra.ford]` table of fpm.toml": the file the regenerated `load_toml_settings` opens and the
+    table it passes to `ProjectSettings(**...)`. -/
+theorem manifest_is_extra_ford_of_fpm_toml :
+    Generated.manifestName = "fpm.toml".toList
+    ∧ Generated.manifestTablePath = ["extra".toList, "ford".toList] := by decide
+
+/-- The source of a project's options is decided by the manifest *next to the project file* alone:
+    for every file system, working directory and spelling of the project file on the command line,
+    the regenerated lookup sequence selects what `load_toml_settings` makes of
+    `<directory of the project file>/fpm.toml`. -/
+theorem source_is_manifest_next_to_project_file (fs : FileSys) (cwd addr : Str) :
+    selectToml fs cwd (dirname addr) Generated.tomlLookups
+      = loadToml (manifestAt fs (projectDirOf cwd addr)) :=
+  selectToml_projectDir_only fs cwd (dirname addr) _ toml_lookup_sound.1 toml_lookup_sound.2
+
+/-- "... whatever the working directory": two starts of FORD that name the same project file - from
+    any two working directories, with any relative or absolute spelling of the path - have the same
+    effective configuration (or the same error), whatever manifests lie in the working directories and
+    whatever text files are readable, for every metadata block, `--config` table and command line.
+    Whole pipeline, regenerated tables.  `_partial`: outside the class "the options come from a metadata
+    block in which a string option opens with an include statement `{!`" (decidable: `mdIncludes`) - inside
+    it the code as it is does depend on the working directory, see the witness below. -/
+theorem effective_same_from_every_working_directory_partial (fs : FileSys) (files : List (Str × List Str))
+    (incRep : Bool) (cwd₁ addr₁ cwd₂ addr₂ pkg : Str) (md : List Str) (config : Option Settings) (cli : Settings)
+    (h : projectDirOf cwd₁ addr₁ = projectDirOf cwd₂ addr₂)
+    (hinc : mdIncludes generatedTables md = false
+      ∨ ∃ kw, manifestAt fs (projectDirOf cwd₁ addr₁) = .ford kw) :
+    effectiveAt generatedTables Generated.tomlLookups fs cwd₁ addr₁ pkg md config cli files incRep
+      = effectiveAt generatedTables Generated.tomlLookups fs cwd₂ addr₂ pkg md config cli files incRep := by
+  simp only [effectiveAt, source_is_manifest_next_to_project_file, ← h]
+  cases hm : loadToml (manifestAt fs (projectDirOf cwd₁ addr₁)) with
+  | error e => rfl
+  | ok toml =>
+    have henv : toml.isSome = true ∨ mdIncludes generatedTables md = false := by
+      rcases hinc with hinc | ⟨kw, hk⟩
+      · exact Or.inr hinc
+      · rw [hk] at hm
+        simp [loadToml] at hm
+        exact Or.inl (by simp [← hm])
+    simp only [effective_env generatedTables (projectDirOf cwd₁ addr₁) pkg toml md config cli _
+      { cwd := cwd₂, directory := dirname addr₂, files := files, baseFromProject := incRep } henv]
+
+/-- The violating class, on the code as it is (`incRep = false`), whole pipeline over the regenerated tables:
+    `md_base_dir: sub` + `summary: {!inc.md!}` with `<project>/sub/inc.md` on disk gives the file's text when FORD
+    is started in the project directory and the empty string when the same project file is named from the parent
+    directory - the relative `md_base_dir` is read from the working directory, not from the project file.
+    With the repair (`Path(directory) / md_base_dir`, variant `incRep = true`) both starts give the file's text. -/
+theorem include_base_dir_depends_on_cwd_witness :
+    effFieldAt "summary" (effectiveAt generatedTables Generated.tomlLookups [] "/w/proj".toList "p.md".toList
+        "/pkg".toList ["---".toList, "md_base_dir: sub".toList, "summary: {!inc.md!}".toList, "---".toList] none []
+        [("/w/proj/sub/inc.md".toList, ["Included".toList])] false)
+      = some (.atom (.str "Included".toList))
+    ∧ effFieldAt "summary" (effectiveAt generatedTables Generated.tomlLookups [] "/w".toList "proj/p.md".toList
+        "/pkg".toList ["---".toList, "md_base_dir: sub".toList, "summary: {!inc.md!}".toList, "---".toList] none []
+        [("/w/proj/sub/inc.md".toList, ["Included".toList])] false)
+      = some (.atom (.str []))
+    ∧ effFieldAt "summary" (effectiveAt generatedTables Generated.tomlLookups [] "/w".toList "proj/p.md".toList
+        "/pkg".toList ["---".toList, "md_base_dir: sub".toList, "summary: {!inc.md!}".toList, "---".toList] none []
+        [("/w/proj/sub/inc.md".toList, ["Included".toList])] true)
+      = some (.atom (.str "Included".toList)) := by
+  decide +kernel
+
+/-- Outside that class the include workaround is the identity, for every environment: no file is read, and the
+    earlier theorems about the metadata format (stated without it) speak about the whole `load_markdown_settings`. -/
+theorem include_only_where_a_value_opens_with_an_include (env : IncEnv) (kw : Settings)
+    (h : opensInclude kw = false) : includeStep env kw kw = .ok kw :=
+  includeStep_id env kw kw h
+
+/-- The documented shape of an include statement is read as `markdown_include` reads it: text before, file name
+    (blanks around it dropped), text after; a line without `{!` is left alone (non-vacuity of `incParse`). -/
+example : incParse "see {! docs/inc.md !} end".toList = .inc "see ".toList "docs/inc.md".toList " end".toList
+    ∧ incParse "{!inc.md!}".toList = .inc [] "inc.md".toList []
+    ∧ incParse "a { b ! c".toList = .plain ∧ incParse "{!a!}{!b!}".toList = .other
+    ∧ incParse "{! !}".toList = .other := by decide
+
+/-- A manifest in any directory other than the project file's - the working directory, the parent
+    directory, an unrelated fpm package - has no influence on the effective configuration: it may
+    appear, disappear, change its `[extra.ford]` table or be unreadable. -/
+theorem manifest_elsewhere_is_ignored (fs : FileSys) (files : List (Str × List Str)) (incRep : Bool)
+    (d : Str) (m : Manifest) (cwd addr pkg : Str)
+    (md : List Str) (config : Option Settings) (cli : Settings)
+    (h : projectDirOf cwd addr ≠ d) :
+    effectiveAt generatedTables Generated.tomlLookups (aset d m fs) cwd addr pkg md config cli files incRep
+      = effectiveAt generatedTables Generated.tomlLookups fs cwd addr pkg md config cli files incRep := by
+  simp only [effectiveAt, source_is_manifest_next_to_project_file, manifestAt_aset_ne fs d _ m h]
+
+/-- "written as project-file metadata, as the `[extra.ford]` table of fpm.toml": the manifest next to
+    the project file is the configuration exactly when it has an `[extra.ford]` table (then the
+    metadata block is not consulted); without the file, without `[extra]` or without `[extra.ford]`
+    the metadata block of the project file is.  In both cases relative paths are taken from the
+    project file's directory. -/
+theorem source_is_manifest_table_or_metadata (fs : FileSys) (files : List (Str × List Str)) (incRep : Bool)
+    (cwd addr pkg : Str) (md : List Str) (config : Option Settings) (cli : Settings) :
+    (∀ kw, manifestAt fs (projectDirOf cwd addr) = .ford kw →
+      effectiveAt generatedTables Generated.tomlLookups fs cwd addr pkg md config cli files incRep
+        = (effective generatedTables (projectDirOf cwd addr) pkg (some kw) md config cli).mapError .settings)
+    ∧ (manifestAt fs (projectDirOf cwd addr) = .absent ∨ manifestAt fs (projectDirOf cwd addr) = .noExtra
+        ∨ manifestAt fs (projectDirOf cwd addr) = .noFord →
+      effectiveAt generatedTables Generated.tomlLookups fs cwd addr pkg md config cli files incRep
+        = (effective generatedTables (projectDirOf cwd addr) pkg none md config cli
+            { cwd := cwd, directory := dirname addr, files := files, baseFromProject := incRep }).mapError .settings) := by
+  refine ⟨fun kw hk => ?_, fun hk => ?_⟩
+  · simp only [effectiveAt, source_is_manifest_next_to_project_file, hk, loadToml]
+    rw [effective_env generatedTables (projectDirOf cwd addr) pkg (some kw) md config cli _ {} (Or.inl rfl)]
+    cases effective generatedTables (projectDirOf cwd addr) pkg (some kw) md config cli <;> rfl
+  · rcases hk with hk | hk | hk <;>
+      simp only [effectiveAt, source_is_manifest_next_to_project_file, hk, loadToml] <;>
+      cases effective generatedTables (projectDirOf cwd addr) pkg none md config cli
+        { cwd := cwd, directory := dirname addr, files := files, baseFromProject := incRep } <;> rfl
+
+/-- A project file given by an absolute path has the same project directory from every working
+    directory (so the two theorems above apply to `ford /abs/doc/ford.md` started anywhere) ... -/
+theorem absolute_project_file_fixes_project_dir (cwd₁ cwd₂ r : Str) :
+    projectDirOf cwd₁ ('/' :: r) = projectDirOf cwd₂ ('/' :: r) :=
+  path_absolute_ignores_dir cwd₁ cwd₂ _ (dirname_absolute r)
+
+/-- ... and a bare file name (`ford ford.md`) has the working directory as project directory. -/
+theorem bare_project_file_is_in_working_directory (cwd name : Str) (h : name.contains '/' = false) :
+    projectDirOf cwd name = normPath cwd [] := by
+  simp [projectDirOf, dirname_no_slash name h]
+
+/-- Why `toml_lookup_sound` is demanded, for any option table: with a fall-back lookup in the working
+    directory, one and the same project file (absolute path, no manifest next to it) is configured
+    by its metadata block when FORD is started in `cwd₁` and by the unrelated manifest lying in
+    `cwd₂` when started there. -/
+theorem cwd_lookup_depends_on_cwd_witness (kw : Settings) (cwd₁ cwd₂ r : Str)
+    (hp₁ : normPath cwd₁ ('/' :: r) ≠ normPath cwd₂ []) (hp₂ : normPath cwd₂ ('/' :: r) ≠ normPath cwd₂ [])
+    (hc : normPath cwd₁ [] ≠ normPath cwd₂ []) :
+    selectToml [(normPath cwd₂ [], .ford kw)] cwd₁ ('/' :: r) [.projectDir, .cwd] = .ok none
+    ∧ selectToml [(normPath cwd₂ [], .ford kw)] cwd₂ ('/' :: r) [.projectDir, .cwd] = .ok (some kw) := by
+  simp [selectToml, lookupDir, manifestAt, aget, loadToml, Ne.symm hp₁, Ne.symm hp₂, Ne.symm hc]
+
+/-- non-vacuity: the layout of the usual fpm package - project file `/w/pkg/doc/ford.md`, started from
+    `/w/pkg/doc`, from `/w/pkg` and from `/w/other` - is one project directory; `dirname` behaves as
+    `os.path.dirname` on the boundary spellings -/
+example : projectDirOf "/w/pkg/doc".toList "ford.md".toList = "/w/pkg/doc".toList
+    ∧ projectDirOf "/w/pkg".toList "doc/ford.md".toList = "/w/pkg/doc".toList
+    ∧ projectDirOf "/w/other".toList "../pkg/./doc//ford.md".toList = "/w/pkg/doc".toList
+    ∧ projectDirOf "/w/other".toList "/w/pkg/doc/ford.md".toList = "/w/pkg/doc".toList
+    ∧ dirname "/ford.md".toList = "/".toList ∧ dirname "//a".toList = "//".toList
+    ∧ dirname "a//b".toList = "a".toList ∧ dirname "a/b/".toList = "a/b".toList := by decide
+
+/-- non-vacuity of the witness: the hypotheses are satisfiable, and over the regenerated lookup table
+    the same two starts agree -/
+example :
+    selectToml [("/w/other".toList, .ford [("project".toList, .atom (.str "Other".toList))])]
+        "/w/pkg".toList "/w/pkg/doc".toList [.projectDir, .cwd] = .ok none
+    ∧ selectToml [("/w/other".toList, .ford [("project".toList, .atom (.str "Other".toList))])]
+        "/w/other".toList "/w/pkg/doc".toList [.projectDir, .cwd]
+        = .ok (some [("project".toList, .atom (.str "Other".toList))])
+    ∧ selectToml [("/w/other".toList, .ford [("project".toList, .atom (.str "Other".toList))])]
+        "/w/other".toList "/w/pkg/doc".toList Generated.tomlLookups = .ok none := by
+  refine ⟨?_, ?_, ?_⟩ <;> rfl
 
 end Ford.C15
